@@ -177,9 +177,9 @@ Section TypeAEst.
     re <- elementary (fst mu) ure df ind ;;
     im <- elementary (snd mu) uim df ind ;;
     (* UncertainComplex._elementary: `if r is not None: real._node.correlation[...] = r`; an
-       independent Leaf has no such attribute (AttributeError).  The repaired estimate passes None
-       exactly when it declares the components independent, so that branch is dead -- it stays
-       in the model because it is what the callee does. *)
+       independent Leaf has no such attribute (AttributeError).  The source now always declares the pair
+       dependent and always passes r (g_est_cplx_indep = false, g_est_cplx_rarg = Some r), so that branch
+       is dead -- it stays in the model because it is what the callee does. *)
     match g_est_cplx_rarg N r with
     | Some r' => if ind then Err AttributeError else Ok (re, im, Some r')
     | None => Ok (re, im, None)
